@@ -2,6 +2,7 @@ package absint
 
 import (
 	"fmt"
+	"os"
 	"math/big"
 	"sort"
 	"strings"
@@ -681,6 +682,10 @@ func varIsZero2(v *FVar) *Term {
 		if lo.Sign() >= 0 && hi.Cmp(v.F.M) < 0 {
 			return EQZ(v.T)
 		}
+		// an integer in [0, 2m) is zero mod m iff it is 0 or m (mutually exclusive tests)
+		if lo.Sign() >= 0 && hi.Cmp(new(big.Int).Lsh(v.F.M, 1)) < 0 {
+			return EQZ(v.T).Add(EQZ(v.T.Sub(TConst(v.F.M))))
+		}
 	}
 	pv := PolyVar(v)
 	return TPred(A.internP("isz:"+pv.Key(), func() *PAtom { return &PAtom{Kind: PISZ, V: pv} }))
@@ -795,4 +800,194 @@ func (p *Poly) LinearParts() ([]LinPart, bool) {
 	}
 	sort.Slice(out, func(i, j int) bool { return out[i].Var < out[j].Var })
 	return out, true
+}
+
+// EqualUnderNonzero decides a = b at every point where all the polynomials nz are non-zero. Inverses that occur
+// in a - b (a variable or a defined polynomial Q with an exponent just below m-1, i.e. Q^(-k) for non-zero Q) are
+// cleared by multiplying with the matching power of Q; Q must be non-zero under the hypotheses (Q is, up to a
+// constant, a product of at most three of them - the field has no zero divisors). The cleared difference must be the
+// zero polynomial. This proves, e.g., N·(A·B)^-1·B = N·A^-1 (one shared inversion instead of two).
+func EqualUnderNonzero(a, b *Poly, nz []*Poly) bool {
+	d := a.Sub(b)
+	if d.IsZero() {
+		return true
+	}
+	f := d.F
+	const small = 64
+	negOf := func(e *big.Int) (int64, bool) { // e = (m-1) - k with 1 <= k <= small
+		k := new(big.Int).Sub(f.M1, e)
+		if k.Sign() > 0 && k.Cmp(big.NewInt(small)) <= 0 {
+			return k.Int64(), true
+		}
+		return 0, false
+	}
+	maxNeg := map[*FVar]int64{}
+	for _, m := range d.mons {
+		for _, x := range m.vars {
+			if x.v.Kind == FPV || x.e.Cmp(big.NewInt(small)) <= 0 {
+				continue
+			}
+			k, ok := negOf(x.e)
+			if !ok {
+				return false
+			}
+			if k > maxNeg[x.v] {
+				maxNeg[x.v] = k
+			}
+		}
+	}
+	if len(maxNeg) == 0 {
+		return false
+	}
+	polyOf := func(v *FVar) *Poly {
+		if v.Kind == FDef {
+			return v.Q
+		}
+		return PolyVar(v)
+	}
+	nonzero := func(q *Poly) bool {
+		_, _, qn := q.content()
+		n := len(nz)
+		if n > 8 {
+			n = 8
+		}
+		for mask := 1; mask < 1<<n; mask++ {
+			cnt := 0
+			prod := PolyInt(f, 1)
+			for i := 0; i < n; i++ {
+				if mask>>i&1 == 1 {
+					cnt++
+					prod = prod.Mul(nz[i])
+				}
+			}
+			if cnt > 3 {
+				continue
+			}
+			_, mono, pn := prod.content()
+			if len(mono) == 0 && pn.Equal(qn) {
+				return true
+			}
+		}
+		return false
+	}
+	for v := range maxNeg {
+		if v.Kind != FDef && v.Kind != FSym {
+			return false
+		}
+		if !nonzero(polyOf(v)) {
+			return false
+		}
+	}
+	total := newPoly(f)
+	for _, m := range d.mons {
+		term := PolyConst(f, m.c)
+		seen := map[*FVar]bool{}
+		for _, x := range m.vars {
+			K, isNeg := maxNeg[x.v]
+			switch {
+			case !isNeg:
+				term = term.Mul(varPow(f, x.v, x.e))
+			case x.e.Cmp(big.NewInt(small)) <= 0:
+				seen[x.v] = true
+				term = term.Mul(polyOf(x.v).Pow(big.NewInt(K + x.e.Int64())))
+			default:
+				seen[x.v] = true
+				k, _ := negOf(x.e)
+				term = term.Mul(polyOf(x.v).Pow(big.NewInt(K - k)))
+			}
+		}
+		for v, K := range maxNeg {
+			if !seen[v] {
+				term = term.Mul(polyOf(v).Pow(big.NewInt(K)))
+			}
+		}
+		total = total.Add(term)
+	}
+	return total.IsZero()
+}
+
+// EqualGuarded decides a = b by cases over the zero tests [Q = 0] both sides mention (at most 4): in each case the
+// tests are replaced by their value; a case whose sides still differ syntactically is decided by clearing inverses
+// under the case's non-zero hypotheses.
+func EqualGuarded(a, b *Poly) bool {
+	if a.Equal(b) {
+		return true
+	}
+	var atoms []*PAtom
+	seen := map[*PAtom]bool{}
+	for _, q := range []*Poly{a, b} {
+		for _, at := range q.PredAtoms() {
+			if at.Kind == PISZ && !seen[at] {
+				seen[at] = true
+				atoms = append(atoms, at)
+			}
+		}
+	}
+	if len(atoms) == 0 || len(atoms) > 4 {
+		return false
+	}
+	for mask := 0; mask < 1<<len(atoms); mask++ {
+		x, y := a, b
+		var nz []*Poly
+		for i, at := range atoms {
+			v := mask>>i&1 == 1
+			x, y = x.SubstPred(at, v), y.SubstPred(at, v)
+			if !v {
+				nz = append(nz, at.V)
+			} else {
+				x, y = x.dropZeroVar(at.V), y.dropZeroVar(at.V)
+			}
+		}
+		if x.Equal(y) {
+			continue
+		}
+		if !EqualUnderNonzero(x, y, nz) {
+			if os.Getenv("SVDEBUG") != "" {
+				fmt.Fprintf(os.Stderr, "EqualGuarded: case %b of %d atoms fails; diff has %d terms\n", mask, len(atoms), x.Sub(y).NumTerms())
+				for _, at := range atoms {
+					fmt.Fprintf(os.Stderr, "  atom %s\n", at.String())
+				}
+				dd := x.Sub(y)
+				for i, m := range dd.sorted() {
+					if i > 6 {
+						break
+					}
+					fmt.Fprintf(os.Stderr, "  mon c=%s", m.c)
+					for _, v := range m.vars {
+						fmt.Fprintf(os.Stderr, " %s^%s", v.v.String()[:min(60, len(v.v.String()))], dd.expStr(v.e))
+					}
+					fmt.Fprintln(os.Stderr)
+				}
+			}
+			return false
+		}
+	}
+	return true
+}
+
+
+// dropZeroVar removes the monomials that contain (a power of) a variable standing for the polynomial z, which is
+// zero by hypothesis.
+func (p *Poly) dropZeroVar(z *Poly) *Poly {
+	_, mono, zn := z.content()
+	out := newPoly(p.F)
+	for _, m := range p.mons {
+		drop := false
+		for _, x := range m.vars {
+			switch x.v.Kind {
+			case FDef:
+				if len(mono) == 0 && x.v.Q.Equal(zn) {
+					drop = true
+				}
+			case FSym:
+				if z.isVar(x.v) {
+					drop = true
+				}
+			}
+		}
+		if !drop {
+			out.addMon(m.c, m.vars)
+		}
+	}
+	return out
 }
